@@ -626,7 +626,13 @@ def rule_bookkeeping(ctx):
                     if x[0] == 'comp' and x[3] and x[3][0][1] == DIMS:
                         elt = x[2]
                         d = ('elem', DIMS, x[3][0][0])
-                        if elt[0] == 'ifexp' and elt[2][0] == 'sub' and elt[2][2] == d and elt[3] == ('call', ('name', 'slice'), (T.CONST_NONE,), ()):
+                        FULL = ('call', ('name', 'slice'), (T.CONST_NONE,), ())
+                        if elt[0] == 'ifexp' and elt[2][0] == 'sub' and elt[2][2] == d and elt[3] == FULL:
+                            seen_reorder = True
+                        # negated test with swapped branches / mapping.get(d, slice(None))
+                        if elt[0] == 'ifexp' and elt[3][0] == 'sub' and elt[3][2] == d and elt[2] == FULL and 'not in' in T.show(elt[1]):
+                            seen_reorder = True
+                        if elt[0] == 'call' and T.call_name(elt) in ('get', 'pop') and elt[2] == (d, FULL) and T.call_name(elt) == 'get':
                             seen_reorder = True
             if e.kind == 'store_sub' and e.b[0] == 'sub' and e.b[1] == DIMS and e.c[0] == 'sub' and e.b[2] == e.c[2]:
                 seen_int = True
@@ -646,15 +652,34 @@ def rule_bookkeeping(ctx):
     ev = run(ctx, fi)
     TUP = P_('idx_tuple')
     ok = False
+
+    def pairs_ok(a):
+        return a[0] == 'sub' and a[1][0] == 'sub' and a[1][1] == ('attr', SELF, 'axes') and a[1][2][0] == 'idx' and a[1][2][1] == TUP \
+            and a[2][0] == 'elem' and a[2][1] == TUP and a[2][2] == a[1][2][2]
     for p in ret_paths(ev):
+        # the accumulating loop is read as a comprehension: [self.axes[i][ix] for i, ix in enumerate(idx_tuple) if not np.isscalar(self.axes[i][ix])]
+        v = p.value
+        if v[0] == 'call' and T.dotted(v[1]) in ('list', 'Axes') and len(v[2]) == 1:
+            v = v[2][0]
+        if v[0] == 'comp' and len(v[3]) == 1:
+            a = v[2]
+            conds = v[3][0][2]
+            if not pairs_ok(a):
+                ctx.violated('R6', fi, T.show(a)[:120], 'the i-th result axis must be self.axes[i][idx_tuple[i]]', node=p.node)
+                ok = None
+            elif not any(c == ('unop', 'not', ('call', ('attr', ('name', 'np'), 'isscalar'), (a,), ())) or
+                         (c[0] == 'unop' and c[1] == 'not' and c[2][0] == 'call' and T.call_name(c[2]) == 'isscalar' and c[2][2] == (a,)) for c in conds) or len(conds) != 1:
+                ctx.violated('R6', fi, T.show(v)[:160], 'axes indexed by a scalar must be dropped (and only those)', node=p.node)
+                ok = None
+            elif ok is not None:
+                ok = True
         for e in p.calls('append'):
             a = e.a[2][0]
-            if a[0] == 'sub' and a[1][0] == 'sub' and a[1][1] == ('attr', SELF, 'axes') and a[1][2][0] == 'idx' and a[1][2][1] == TUP \
-                    and a[2][0] == 'elem' and a[2][1] == TUP and a[2][2] == a[1][2][2]:
+            if pairs_ok(a):
                 # guarded by not isscalar(ax)
                 g = [(x, pol) for x, pol in e.guards if x[0] == 'call' and T.call_name(x) == 'isscalar' and x[2] == (a,)]
                 if g and g[0][1] is False:
-                    ok = True
+                    ok = True if ok is not None else ok
                 else:
                     ctx.violated('R6', fi, T.show(e.a), 'axes indexed by a scalar must be dropped (and only those)', node=e.node)
                     ok = None
@@ -664,7 +689,7 @@ def rule_bookkeeping(ctx):
     if ok:
         ctx.holds('R6', '_getaxes_ortho pairs idx_tuple[i] with axes[i], drops scalar-indexed axes')
     elif ok is False:
-        ctx.violated('R6', fi, '_getaxes_ortho', 'no axis is ever appended')
+        ctx.violated('R6', fi, '_getaxes_ortho', 'no axis is ever collected')
 
 
 # ----------------------------------------------------------------------------- R7
